@@ -94,17 +94,48 @@ class Unsupported:
 UNSUPPORTED = Unsupported()
 
 
+def _attr(t: object, *names: str):
+    """Content of a generic-sink term whatever its fields are called (`_iri` today; a refactoring that renames the private
+    attribute or turns the class into a record must not turn a check into a tooling failure)."""
+    for n in names:
+        if hasattr(t, n):
+            return getattr(t, n)
+    if isinstance(t, tuple) and len(t) >= 1 and len(names) and names[-1].isdigit():
+        return t[int(names[-1])]
+    raise AttributeError(f"{type(t).__name__} has none of {names}")
+
+
+def iri_s(t):
+    return _attr(t, "_iri", "iri", "value", "0")
+
+
+def bn_id(t):
+    return _attr(t, "_identifier", "identifier", "id", "label", "0")
+
+
+def lit_lex(t):
+    return _attr(t, "_lex", "lex", "lexical", "0")
+
+
+def lit_lang(t):
+    return _attr(t, "_langtag", "langtag", "language", "lang", "1")
+
+
+def lit_dt(t):
+    return _attr(t, "_datatype", "datatype", "2")
+
+
 def term_text(t: object) -> str:
     from pyjelly.integrations.generic.generic_sink import IRI, BlankNode, DefaultGraph, Literal, Triple
 
     if isinstance(t, IRI):
-        if not isinstance(t._iri, str):
-            return "?IRI(" + term_text(t._iri) + ")"
-        return "I" + hx(t._iri)
+        if not isinstance(iri_s(t), str):
+            return "?IRI(" + term_text(iri_s(t)) + ")"
+        return "I" + hx(iri_s(t))
     if isinstance(t, BlankNode):
-        return "B" + hx(t._identifier)
+        return "B" + hx(bn_id(t))
     if isinstance(t, Literal):
-        return "L" + hx(t._lex) + ":" + opt(t._langtag) + ":" + opt(t._datatype)
+        return "L" + hx(lit_lex(t)) + ":" + opt(lit_lang(t)) + ":" + opt(lit_dt(t))
     if isinstance(t, Triple):
         return "T(" + term_text(t.s) + ";" + term_text(t.p) + ";" + term_text(t.o) + ")"
     if t is DefaultGraph:
